@@ -1,7 +1,7 @@
 (* C26: witnesses and property-level statements; Props/C26.v only restates them. *)
 From Coq Require Import ZArith String.
 From ApolloVerif Require Import Base.Chars Ast.Ast Schema.Model Run.Json Run.Coerce Run.TypedDoc Run.Prog
-  Run.Execute Run.ExecTop Run.RefExecute Run.ExecKnown Run.ExecProofs.
+  Run.Execute Run.ExecTop Run.RefExecute Run.ExecKnown Run.ExecProofs Run.ExecPaths.
 Local Open Scope string_scope.
 Local Open Scope list_scope.
 
@@ -68,6 +68,40 @@ Proof.
     destruct new; [reflexivity|]. cbn [rev] in Hr. now apply app_eq_nil in Hr as [_ Hr].
 Qed.
 
+(* every field error carries the path of its position: following an error's path in the data reaches a null, at
+   the error's position or at an enclosing position to which the null propagated (if the data is null, the
+   root).  For worlds without SkipForPartialExecution. *)
+Lemma prepare_stop_not_response s doc values o r :
+  execute_prepare s doc values = EpStop o -> o <> EoResponse r.
+Proof.
+  unfold execute_prepare. destruct (td_build s doc); [|intros [= <-]; discriminate].
+  destruct (td_root_type s (rd_optype r0)); [|intros [= <-]; discriminate].
+  destruct (ex_get_object s s0); [|intros [= <-]; discriminate].
+  destruct (coerce_variable_values s (rd_vars r0) values); intros [= <-]; discriminate.
+Qed.
+
+Lemma c26_error_paths : forall s doc values w r log,
+  world_skipfree w = true ->
+  execute_request s doc values w = (EoResponse r, log) ->
+  forall e, In e (er_errors r) ->
+    match er_data r with
+    | Some m => null_along (JObj m) (ge_path e)
+    | None => True
+    end.
+Proof.
+  intros s doc values w r log Hw H e He. unfold execute_request in H.
+  destruct (execute_prepare s doc values) as [d vars root impls|o] eqn:Ep0;
+    [|injection H as -> _; exfalso; now apply (prepare_stop_not_response _ _ _ _ r Ep0)].
+  destruct (run_sync w (execute_prog s d vars root impls) []) as [[res st] lg] eqn:E.
+  injection H as H _. unfold execute_prog in E.
+  destruct (q_all w (ex_cx_for s d vars) Hw (ex_fuel_for d)) as (Hs & _).
+  destruct (Hs _ _ _ _ _ _ _ _ _ _ E) as (new & -> & F). rewrite app_nil_r in H.
+  destruct res as [m| |]; cbn [ex_outcome] in H; try discriminate; injection H as <-;
+    cbn [er_data er_errors] in He |- *; [|exact I].
+  apply in_rev in He. rewrite Forall_forall in F. destruct (F e He) as (suf & Epth & Hc).
+  cbn [rev app] in Epth. rewrite Epth. now apply Hc.
+Qed.
+
 (* non-vacuity: a request with nested selections, an error and a nullified field *)
 Definition x_nv_schema : schema :=
   {| sch_def := x_sdef; sch_dirdefs := [];
@@ -92,10 +126,12 @@ Lemma c26_nonvacuous :
                                    (xs "__typename", JStr (xs "Query"))];
                   er_errors := [{| ge_class := EcNull; ge_path := [PsKey (xs "a"); PsKey (xs "l"); PsIdx 1%N] |};
                                 {| ge_class := EcLeaf; ge_path := [PsKey (xs "b"); PsKey (xs "n")] |}] |} /\
-  ref_execute x_nv_schema x_nv_doc [] x_nv_world = fst (execute_request x_nv_schema x_nv_doc [] x_nv_world).
+  ref_execute x_nv_schema x_nv_doc [] x_nv_world = fst (execute_request x_nv_schema x_nv_doc [] x_nv_world) /\
+  world_skipfree x_nv_world = true.
 Proof.
-  split; [|split].
+  split; [|split; [|split]].
   - vm_compute. repeat eexists.
   - vm_compute. reflexivity.
   - vm_compute. reflexivity.
+  - reflexivity.
 Qed.
